@@ -112,19 +112,25 @@ def _(v):
     on_disk = lambda fld: eng.content("arch", ("reb_simulationarchive_blob", fld), i32, simp(pos_tr + tu.offsetof("reb_simulationarchive_blob", fld)))
     v.prove("old_trailer.rewritten_in_place_before_append_position", z3.And(pos_tr + TRL == W, w_tr[3] == TRL))
     old = w_tr[5]
-    v.ground("old_trailer.is_a_trailer_struct", old is not None and old.ctype.name == "reb_simulationarchive_blob", str(old))
+    is_struct = lambda o, name: o is not None and getattr(getattr(o, "ctype", None), "name", None) == name and hasattr(o, "fields")
+    # crash protocol: the previous trailer is completed FIRST (a cut afterwards leaves a trailer whose offset_next points over a
+    # delta that fails the reader's END / checksum test and is discarded by reader and recovery walk alike); delta, END header and
+    # the new trailer follow in stream order
+    v.ground("old_trailer.is_a_trailer_struct", is_struct(old, "reb_simulationarchive_blob"), str(old)[:200])
+    if not is_struct(old, "reb_simulationarchive_blob"):
+        old = None
     if old is not None:
         v.prove("old_trailer.index_preserved", as_int(old.fields["index"]) == on_disk("index"))
         v.prove("old_trailer.offset_prev_preserved", as_int(old.fields["offset_prev"]) == on_disk("offset_prev"))
         v.prove("old_trailer.offset_next_points_over_the_new_delta", as_int(old.fields["offset_next"]) == size_diff + HDR)
     v.prove("delta.at_append_position", z3.And(w_diff[3] == size_diff, w_end[2] == W + size_diff))
     endh = w_end[5]
-    v.ground("end_header.struct", endh is not None and endh.ctype.name == "reb_binary_field", str(endh))
-    if endh is not None:
+    v.ground("end_header.struct", is_struct(endh, "reb_binary_field"), str(endh)[:200])
+    if is_struct(endh, "reb_binary_field"):
         v.prove("end_header.type_END_size_0", z3.And(as_int(endh.fields["type"]) == END, as_int(endh.fields["size"]) == 0, w_end[3] == HDR))
     new = w_new[5]
-    v.ground("new_trailer.struct", new is not None and new.ctype.name == "reb_simulationarchive_blob", str(new))
-    if new is not None and old is not None:
+    v.ground("new_trailer.struct", is_struct(new, "reb_simulationarchive_blob"), str(new)[:200])
+    if is_struct(new, "reb_simulationarchive_blob") and old is not None:
         v.prove("new_trailer.follows_END", z3.And(w_new[2] == W + size_diff + HDR, w_new[3] == TRL))
         v.prove("new_trailer.index_incremented", as_int(new.fields["index"]) == on_disk("index") + 1)
         v.prove("new_trailer.offset_prev_is_blob_length", as_int(new.fields["offset_prev"]) == size_diff + HDR)
